@@ -54,16 +54,24 @@ def make_replay(prop, ob, res, tree_hash):
         doc["note"] = "Verus gives no counterexample; the failed obligation and the verifier output are recorded"
     else:
         t0 = time.time()
-        vals, out = kani_run.concrete_playback(ob, ob.get("features", ""))
+        cands, out = kani_run.concrete_playback(ob, ob.get("features", ""))
         doc["verifier_output"] = "\n".join(l for l in out.splitlines() if not l.startswith("warning"))[-6000:]
+        vals = cands[0] if cands else None
         doc["concrete_values"] = vals
+        doc["concrete_value_candidates"] = cands
         if vals is None:
             doc["note"] = "Kani produced no concrete values for this failure"
         elif "noreplay" in ob["flags"] or "stub" in ob["flags"] or not _replayable(ob):
             doc["note"] = "harness uses Kani-only devices (stubs / contracts); concrete values recorded, not re-executed"
         else:
-            rc, tout, cmd, envbytes = _run_test(ob["harness"], vals)
-            found = _assess(rc, tout)
+            # one candidate per failed check and per satisfied cover: keep the first that fails on the real code
+            for cand in cands[:8]:
+                rc, tout, cmd, envbytes = _run_test(ob["harness"], cand)
+                found = _assess(rc, tout)
+                if found:
+                    vals = cand
+                    doc["concrete_values"] = cand
+                    break
             doc["replay_cmd"] = "cd %s && RUSTFLAGS='--cfg salsa_verif_replay' VERIF_REPLAY_BYTES='%s' %s" % (
                 SCRATCH, envbytes, " ".join(cmd))
             doc["replay_exit"] = rc
